@@ -235,24 +235,42 @@ FASTOR_INLINE SIMDVector<T,ABI> round(const SIMDVector<T,ABI> &a) {
     for (FASTOR_INDEX i=0; i<SIMDVector<T,ABI>::Size; i++) { ((T*)&out)[i] = std::round(((T*)&a)[i]);}
     return out;
 }
+// std::round rounds halfway cases away from zero whereas the nearest-int rounding mode of the
+// hardware rounds them to even: truncate, then step away from zero where the fraction is >= 0.5
 #ifdef FASTOR_SSE4_1_IMPL
 template<>
 FASTOR_INLINE SIMDVector<float,simd_abi::sse> round(const SIMDVector<float,simd_abi::sse> &a) {
-    return _mm_round_ps(a.value, ( _MM_FROUND_TO_NEAREST_INT | _MM_FROUND_NO_EXC ) );
+    const __m128 sign = _mm_and_ps(a.value, _mm_set1_ps(-0.f));
+    const __m128 t    = _mm_round_ps(a.value, ( _MM_FROUND_TO_ZERO | _MM_FROUND_NO_EXC ) );
+    const __m128 frac = _mm_andnot_ps(_mm_set1_ps(-0.f), _mm_sub_ps(a.value, t));
+    const __m128 step = _mm_and_ps(_mm_cmpge_ps(frac, _mm_set1_ps(0.5f)), _mm_or_ps(_mm_set1_ps(1.f), sign));
+    return _mm_or_ps(_mm_add_ps(t, step), sign);
 }
 template<>
 FASTOR_INLINE SIMDVector<double,simd_abi::sse> round(const SIMDVector<double,simd_abi::sse> &a) {
-    return _mm_round_pd(a.value, ( _MM_FROUND_TO_NEAREST_INT | _MM_FROUND_NO_EXC ) );
+    const __m128d sign = _mm_and_pd(a.value, _mm_set1_pd(-0.));
+    const __m128d t    = _mm_round_pd(a.value, ( _MM_FROUND_TO_ZERO | _MM_FROUND_NO_EXC ) );
+    const __m128d frac = _mm_andnot_pd(_mm_set1_pd(-0.), _mm_sub_pd(a.value, t));
+    const __m128d step = _mm_and_pd(_mm_cmpge_pd(frac, _mm_set1_pd(0.5)), _mm_or_pd(_mm_set1_pd(1.), sign));
+    return _mm_or_pd(_mm_add_pd(t, step), sign);
 }
 #endif
 #ifdef FASTOR_AVX_IMPL
 template<>
 FASTOR_INLINE SIMDVector<float,simd_abi::avx> round(const SIMDVector<float,simd_abi::avx> &a) {
-    return _mm256_round_ps(a.value, ( _MM_FROUND_TO_NEAREST_INT | _MM_FROUND_NO_EXC ) );
+    const __m256 sign = _mm256_and_ps(a.value, _mm256_set1_ps(-0.f));
+    const __m256 t    = _mm256_round_ps(a.value, ( _MM_FROUND_TO_ZERO | _MM_FROUND_NO_EXC ) );
+    const __m256 frac = _mm256_andnot_ps(_mm256_set1_ps(-0.f), _mm256_sub_ps(a.value, t));
+    const __m256 step = _mm256_and_ps(_mm256_cmp_ps(frac, _mm256_set1_ps(0.5f), _CMP_GE_OQ), _mm256_or_ps(_mm256_set1_ps(1.f), sign));
+    return _mm256_or_ps(_mm256_add_ps(t, step), sign);
 }
 template<>
 FASTOR_INLINE SIMDVector<double,simd_abi::avx> round(const SIMDVector<double,simd_abi::avx> &a) {
-    return _mm256_round_pd(a.value, ( _MM_FROUND_TO_NEAREST_INT | _MM_FROUND_NO_EXC ) );
+    const __m256d sign = _mm256_and_pd(a.value, _mm256_set1_pd(-0.));
+    const __m256d t    = _mm256_round_pd(a.value, ( _MM_FROUND_TO_ZERO | _MM_FROUND_NO_EXC ) );
+    const __m256d frac = _mm256_andnot_pd(_mm256_set1_pd(-0.), _mm256_sub_pd(a.value, t));
+    const __m256d step = _mm256_and_pd(_mm256_cmp_pd(frac, _mm256_set1_pd(0.5), _CMP_GE_OQ), _mm256_or_pd(_mm256_set1_pd(1.), sign));
+    return _mm256_or_pd(_mm256_add_pd(t, step), sign);
 }
 #endif
 //----------------------------------------------------------------------------------------------------------//
